@@ -39,6 +39,7 @@ pub struct Gen {
     readonly: std::collections::HashSet<String>,
     try_depth: usize,
     pub no_self_shadow: bool,
+    last_header_names: Vec<String>,
 }
 
 const STRS: &[&str] = &["a", "bc", "", "xyz", "q"];
@@ -60,6 +61,7 @@ impl Gen {
             readonly: Default::default(),
             try_depth: 0,
             no_self_shadow: false,
+            last_header_names: vec![],
         }
     }
     fn feat(&mut self, f: &'static str) {
@@ -140,7 +142,14 @@ impl Gen {
             },
             4 | 5 | 6 => {
                 let o = *self.rng.pick(&["+", "-", "*"]);
-                Expr::Op(o.into(), b(self.gen_int(d - 1)), b(self.gen_int(d - 1)))
+                let (x, y) = (self.gen_int(d - 1), self.gen_int(d - 1));
+                if self.rng.chance(1, 8) {
+                    // operators are ordinary functions: call form `-(a, b)`
+                    self.feat("op-call-form");
+                    Expr::Call(b(Expr::Ident(o.into())), vec![x, y])
+                } else {
+                    Expr::Op(o.into(), b(x), b(y))
+                }
             }
             7 => {
                 let o = *self.rng.pick(&["//", "%"]);
@@ -209,7 +218,7 @@ impl Gen {
             19 => {
                 // a loop whose value is a break value or null
                 self.feat("break-value");
-                let lst = self.gen_list(d - 1);
+                let lst = self.gen_iteratee(d - 1);
                 let x = self.fresh();
                 let body = self.in_frame(|g| {
                     g.declare(&x, Ty::Int);
@@ -279,10 +288,13 @@ impl Gen {
         // chain of per-binding frames: names are unique so the difference is unobservable here)
         let mut its = vec![];
         let nclauses = 1 + self.rng.below(3);
+        let mut header_names: Vec<String> = vec![];
         for ci in 0..nclauses {
-            match if ci == 0 { 0 } else { self.rng.below(4) } {
+            match if ci == 0 { if self.rng.chance(1, 5) { 2 } else { 0 } } else { self.rng.below(4) } {
                 0 | 1 => {
-                    let lst = self.gen_list(d);
+                    // (C17 mode: declarations made inside an iteratee expression are not relied upon
+                    // afterwards - freeze treats them as loop-local, known finding F30)
+                    let lst = self.gen_iteratee(d);
                     if self.rng.chance(1, 4) {
                         self.feat("for-item");
                         let (k, v) = (self.fresh(), self.fresh());
@@ -293,14 +305,23 @@ impl Gen {
                         let x = self.fresh();
                         its.push(ForIt::Iter(IterKind::Normal, Pat::Ident(x.clone()), lst));
                         self.declare(&x, Ty::Int);
+                        header_names.push(x);
                     }
                 }
                 2 => {
                     self.feat("for-declare");
-                    let x = self.fresh();
-                    let e = self.gen_int(d);
+                    // each clause binds in its own fresh scope: a declaration may reuse (shadow) the name
+                    // of an earlier clause, and its initialiser still sees the earlier binding
+                    let e = if self.no_self_shadow { self.conditional(|g| g.gen_int(d)) } else { self.gen_int(d) };
+                    let x = if !header_names.is_empty() && self.rng.chance(1, 3) {
+                        self.feat("for-declare-shadows-clause");
+                        self.rng.pick(&header_names).clone()
+                    } else {
+                        self.fresh()
+                    };
                     its.push(ForIt::Iter(IterKind::Declare, Pat::Ident(x.clone()), e));
                     self.declare(&x, Ty::Int);
+                    header_names.push(x);
                 }
                 _ => {
                     self.feat("for-guard");
@@ -310,6 +331,7 @@ impl Gen {
             }
         }
         declare_in(self);
+        self.last_header_names = header_names;
         its
     }
     fn gen_for_int(&mut self, d: u32) -> Expr {
@@ -385,6 +407,14 @@ impl Gen {
                 })
             }
             _ => Expr::List(vec![self.gen_int(d - 1)]),
+        }
+    }
+    /// the sequence a `for` clause iterates over
+    fn gen_iteratee(&mut self, d: u32) -> Expr {
+        if self.no_self_shadow {
+            self.conditional(|g| g.gen_list(d))
+        } else {
+            self.gen_list(d)
         }
     }
     pub fn gen_cond(&mut self, d: u32) -> Expr {
@@ -579,13 +609,29 @@ impl Gen {
             }
             11 | 12 | 13 if d > 0 => {
                 self.feat("for");
-                self.in_frame(|g| {
+                let (lp, names) = self.in_frame(|g| {
                     let its = g.gen_for_header(d - 1, &mut |_| {});
+                    let names = g.last_header_names.clone();
                     g.loop_depth += 1;
                     let body = g.gen_block(d - 1);
                     g.loop_depth -= 1;
-                    Expr::For(its, ForBody::Exec(b(body)))
-                })
+                    (Expr::For(its, ForBody::Exec(b(body))), names)
+                });
+                // names bound by the header live in the loop's own scopes: the enclosing scope may
+                // declare the same name afterwards
+                let reusable: Vec<String> = names
+                    .into_iter()
+                    .filter(|n| !self.frames.iter().any(|fr| fr.iter().any(|v| &v.name == n)))
+                    .collect();
+                if !reusable.is_empty() && self.rng.chance(1, 3) {
+                    self.feat("redeclare-after-loop");
+                    let y = self.rng.pick(&reusable).clone();
+                    let e = Expr::Int(self.small_int());
+                    self.declare(&y, Ty::Int);
+                    Expr::Seq(vec![lp, Expr::Declare(Pat::Ident(y), b(e))], true)
+                } else {
+                    lp
+                }
             }
             14 if self.loop_depth > 0 => {
                 self.feat("break");
@@ -656,7 +702,7 @@ impl Gen {
                 // closures created per loop iteration
                 self.feat("closure-per-iteration");
                 let (fs, i) = (self.fresh(), self.fresh());
-                let lst = self.gen_list(d - 1);
+                let lst = self.gen_iteratee(d - 1);
                 let body = self.in_frame(|g| {
                     g.declare(&i, Ty::Int);
                     let e = g.gen_int(d - 1);
@@ -751,7 +797,7 @@ impl Gen {
                 self.feat("yield-item");
                 let x = self.fresh();
                 let d0 = self.fresh();
-                let lst = self.gen_list(d - 1);
+                let lst = self.gen_iteratee(d - 1);
                 let (kb, vb, into) = self.in_frame(|g| {
                     g.declare(&x, Ty::Int);
                     let kb = Expr::Op("%".into(), b(Expr::Ident(x.clone())), b(Expr::Int(*g.rng.pick(&[2, 3]))));
